@@ -7,7 +7,7 @@ from rules.psc import sym, strip, facts_at, implies_lt, macro_of
 META = {
     'title': 'Every failure is an error value: no input crashes or hangs the interpreter',
     'explanation': 'PSC: every panic source (MIR Assert terminators for overflow / division / bounds, calls to unwrap/expect, core::panicking::*, Index::index and the panicking Vec/String/str methods) in every function reachable from the public entry points and the binary is collected and must be discharged by a checked local argument: a constant condition (D0), a dominating guard over the same places (D1), the same guard found on every enumerated path reaching the site (D1p, loops cut at two visits; helpers that are new with respect to the pinned tree are spliced into their callers first), a sign/size/field-range/countdown argument (D2), or a structural invariant established by another rule of this suite (D3, one named row per symbol). TRM: every loop of lexer/parser/compiler passes a strict consumer, a loop counter step or a shrinking-container step on every iteration and every recursion cycle consumes input. R05.3/R05.4: error values are propagated, the CLI does not unwrap them. R05.5 the number of call frames is bounded by a test with an error edge.',
-    'not_decided': ['termination of the VM loop for programs that loop by themselves (halting problem)', 'time/memory limits, host stack size'],
+    'not_decided': ['whether a debug_assert! that no rule proves can fail (accepted as an assumption when its condition has no side effect and the function has no unsafe operation; counted under discharge class DA)', 'termination of the VM loop for programs that loop by themselves (halting problem)', 'time/memory limits, host stack size'],
 }
 
 SIZE_SOURCES = ('::len', '::len_utf8', '::count', '::capacity')
@@ -1200,6 +1200,64 @@ def d3_table(ctx):
 
 
 
+def developer_assertion(F, s):
+    """A `debug_assert*!` that no rule proves is the developer's claim of an invariant, evaluated in debug builds only.  It cannot
+    make the two build profiles differ, nor change a result, unless it FAILS - which static rules in reach cannot decide in
+    general.  It is accepted as an assumption (and listed as such) when (i) evaluating its condition has no side effect - every
+    call inside the expansion takes its arguments by value or shared reference - and (ii) no unsafe operation follows it before
+    the next turn of an enclosing loop or the end of the function (where an assertion states the safety condition of unchecked
+    code - VM::pop, GC::mark - it must be proven, not assumed)."""
+    mac = macro_of(s['span'])
+    if mac not in ('debug_assert', 'debug_assert_eq', 'debug_assert_ne'):
+        return None
+    fn = s['f']
+    from rules.unsafe_inv import user_site
+    if fn.j.get('unsafe'):
+        return None
+    # what the assertion could be the safety condition of: the code that runs after it held, up to the next turn of an enclosing
+    # loop (in the dispatch function: the rest of the opcode arm) or the end of the function
+    cur = s['block']
+    cont = None
+    for _ in range(30):
+        preds = fn.pred(cur)
+        if len(preds) != 1:
+            break
+        pt = fn.term(preds[0])
+        if pt['k'] == 'switch':
+            cont = [x for x in fn.succ(preds[0]) if x != cur]
+            test_block = preds[0]
+            break
+        cur = preds[0]
+    if cont is None:
+        return None
+    headers = {h for h, body in fn.natural_loops() if test_block in body}
+    after = set()
+    for c0 in cont:
+        after |= fn.reachable(c0, stop=headers)
+    for b, t in fn.calls():
+        if b in after and t['callee'].get('unsafe') and user_site(t['span']):
+            return None
+    for b, si, st in fn.stmts():
+        if b in after and st['k'] == 'assign' and st['rv']['k'] == 'rawptr':
+            return None
+    line = s['span'].get('line')
+    for b, t in fn.calls():
+        sp = t['span']
+        ms = [m.split('::')[-1] for m in (sp.get('macros') or [])]
+        if mac not in ms or sp.get('line') != line:
+            continue
+        n = callee_name(t)
+        if n.startswith(('core::panicking', 'core::fmt', 'std::panicking', 'core::fmt::rt')) or 'fmt::Arguments' in n or n.endswith(('::fmt', 'Argument::<\'_>::new_debug', 'Argument::<\'_>::new_display')):
+            continue
+        for a in t['args']:
+            l = op_base_local(a)
+            if l is not None:
+                ty = fn.local_ty(l)
+                if ty.startswith('&') and ' mut ' in ty[:24]:
+                    return None
+    return 'DA', 'a developer assertion of debug builds that no rule proves: accepted as an ASSUMPTION (its condition has no side effect, no unsafe operation follows it); if it can fail, debug builds panic here'
+
+
 def verdict_for(ctx, s, rows=None, cache=None):
     """(ok, text) for one panic site: D0-D2 local discharge, host-I/O class, D3 table, D4"""
     F = ctx.facts()
@@ -1251,6 +1309,10 @@ def verdict_for(ctx, s, rows=None, cache=None):
         pd = path_discharge(F, s) or countdown_index(F, s) or countup_index(F, s) or assertion_infeasible(F, s)
         if pd:
             verdict = (True, '%s: %s' % pd)
+    if verdict is None or not verdict[0]:
+        da = developer_assertion(F, s)
+        if da:
+            verdict = (True, '%s: %s' % da)
     if verdict is None:
         if s['kind'] == 'call' and what.endswith('::unwrap') and 'try_into' in str(sym(fn, t['args'][0]))[:80]:
             verdict = (False, 'D4: a size conversion (position/count -> u16/u8) panics when the program is too large')
